@@ -278,6 +278,8 @@ impl Prop for Faithful {
         cfg.static_vfuncs = true;
         cfg.alias_types = 4;
         cfg.allow_f20 = true;
+        cfg.decorated_gaps = true;
+        cfg.vft_base_anywhere = true;
         let (prog, _, _) = gen_prog(t, cfg);
         Case { prog, w }
     }
